@@ -336,9 +336,14 @@ def run_check(prop, tier, seed, replay=None):
 
     # ---- 5b. property-specific runtime harness (child processes, threads …)
     custom = None
-    if hasattr(prop, "custom_check") and replay is None:
+    is_harness_replay = bool(replay_data) and replay_data.get("kind") == "runtime-harness" and hasattr(prop, "custom_replays")
+    if hasattr(prop, "custom_check") and (replay is None or is_harness_replay):
         try:
-            custom = prop.custom_check(tier, rng, {"exe": exe, "driver": driver, "build": build})
+            ctx = {"exe": exe, "driver": driver, "build": build}
+            if is_harness_replay:
+                # replaying a failure of the runtime harness: the same object set / script through the same harness
+                ctx["replay"] = replay_data
+            custom = prop.custom_check(tier, rng, ctx)
         except build.BuildError as e:
             broken.append({"kind": "harness", "what": e.what, "log": e.log[-4000:]})
             custom = None
